@@ -101,19 +101,27 @@ theorem commit_lists_prefix (a : Alloc) (st : TxAlloc) (a1 : Alloc) (st1 : TxAll
   rw [releaseOverflow_take, releaseOverflow_take (unionIds st1.mta.freed a1.mta.free)]
   exact ⟨List.take_prefix _ _, List.take_prefix _ _⟩
 
-/-- (d) for the meta end marker — PARTIAL: holds if there is no overflow area
-    (`mta.endMarker ≤ data.endMarker`) or overflow pages were released by this commit -/
-theorem commit_keeps_live_meta_partial (a : Alloc) (st : TxAlloc) (a1 : Alloc) (st1 : TxAlloc) (cs : AllocCommit)
+/-- (d) for the meta end marker — FULL, no hypothesis needed (after the repair of alloc.go: the meta
+    end marker only follows the data end marker if it does not lie beyond the old end of the data
+    area): a page below the meta end marker that is in neither of the new free lists stays below
+    the new meta end marker -/
+theorem commit_keeps_live_meta (a : Alloc) (st : TxAlloc) (a1 : Alloc) (st1 : TxAlloc) (cs : AllocCommit)
     (h : fileCommitAlloc a st true = some (a1, st1, cs))
-    (hov : a1.mta.endMarker ≤ a1.data.endMarker ∨ 0 < cs.overflowFreed)
     (id : Nat) (hid : id < a1.mta.endMarker)
     (hnd : id ∉ unionIds st1.data.freed a1.data.free) (hnm : id ∉ unionIds st1.mta.freed a1.mta.free) :
     id < cs.metaEnd := by
-  rw [(fileCommitAlloc_some a st a1 st1 cs h).1] at hov ⊢
-  exact commitState_keeps_meta a1 st1 _ id hov hid hnd hnm
+  rw [(fileCommitAlloc_some a st a1 st1 cs h).1]
+  exact commitState_keeps_meta a1 st1 _ id hid hnd hnm
 
-/-- the state that was a COUNTEREXAMPLE on the pinned tree (the missing piece of
-    `commit_keeps_live_meta_partial`): limit lowered to 5, data area ends at 10 with page 9 free,
+/-- the end markers never grow beyond the larger of the old ones -/
+theorem commit_ends_bounded (a : Alloc) (st : TxAlloc) (a1 : Alloc) (st1 : TxAlloc) (cs : AllocCommit)
+    (h : fileCommitAlloc a st true = some (a1, st1, cs)) :
+    cs.metaEnd ≤ a1.mta.endMarker ∧ cs.dataEnd ≤ max a1.data.endMarker a1.mta.endMarker := by
+  rw [(fileCommitAlloc_some a st a1 st1 cs h).1]
+  exact commitState_ends a1 st1 _
+
+/-- the state that was a COUNTEREXAMPLE on the pinned tree (then the missing piece of the partial
+    version of `commit_keeps_live_meta`): limit lowered to 5, data area ends at 10 with page 9 free,
     overflow area `[10, 12)` in use (pages 10, 11 are in neither free list). The pinned code released
     page 9 and set BOTH end markers to 9, below the in-use meta pages 10 and 11 (found first as this
     `decide`-checked witness, then reproduced on the implementation: reopen failed / live pages read
@@ -133,5 +141,68 @@ example :
       (fun r => (r.1.data.endMarker, r.1.mta.endMarker, r.2.2))
       = some (10, 10, { updated := true, allocRegions := [5], dataEnd := 8, metaEnd := 8, metaList := [3, 4],
                         dataList := [], overflowFreed := 0 }) := by decide
+
+/-- the meta end marker still follows a real shrink of the data area when the meta area ends inside it,
+    and overflow pages and data pages can be released by the same commit (limit 5, overflow pages
+    10, 11 freed by the transaction, data page 9 free): pages 7, 8 in use stay below both markers -/
+example :
+    let a : Alloc := { maxPages := 5, data := { endMarker := 10, free := [9] }, mta := { endMarker := 12, free := [3] }, metaTotal := 5 }
+    let st : TxAlloc := { a.beginTx false 80 with mta := { end0 := 12, freed := [10, 11] } }
+    (fileCommitAlloc a st true).map (fun r => (r.2.2.dataEnd, r.2.2.metaEnd, r.2.2.overflowFreed, r.2.2.dataList))
+      = some (9, 9, 2, []) := by decide
+
+/-! ### `absorbOverflow` (open / raised limit): pages handed out from the end of the file are fresh
+
+  `M`: the meta pages in use. On a file WITH an overflow area meta pages (free or in use) may lie in
+  `[data.endMarker, mta.endMarker)`; the only assumption is that they lie below the meta end marker. -/
+
+/-- if the data area may grow, after `absorbOverflow` every meta page (free or in use) lies below
+    the data end marker -/
+theorem absorb_meta_below_end (a : Alloc) (M : List Nat) (hm : ∀ x ∈ a.mta.free ++ M, x < a.mta.endMarker)
+    (hg : a.maxPages = 0 ∨ a.data.endMarker < a.maxPages) :
+    ∀ x ∈ a.mta.free ++ M, x < a.absorbOverflow.data.endMarker := absorb_meta_below a M hm hg
+
+/-- the same with the growth condition on the state after `absorbOverflow` -/
+theorem absorb_meta_below_end' (a : Alloc) (M : List Nat) (hm : ∀ x ∈ a.mta.free ++ M, x < a.mta.endMarker)
+    (hg : a.absorbOverflow.maxPages = 0 ∨ a.absorbOverflow.data.endMarker < a.absorbOverflow.maxPages) :
+    ∀ x ∈ a.mta.free ++ M, x < a.absorbOverflow.data.endMarker := absorb_meta_below a M hm (absorb_growth a hg)
+
+/-- hence every id at or beyond the data end marker is in no free list and not a meta page in use -/
+theorem absorb_end_fresh (a : Alloc) (M : List Nat) (hm : ∀ x ∈ a.mta.free ++ M, x < a.mta.endMarker)
+    (hd : ∀ x ∈ a.data.free, x < a.data.endMarker) (hg : a.maxPages = 0 ∨ a.data.endMarker < a.maxPages)
+    (id : Nat) (hid : a.absorbOverflow.data.endMarker ≤ id) :
+    id ∉ a.absorbOverflow.data.free ∧ id ∉ a.absorbOverflow.mta.free ∧ id ∉ M := by
+  obtain ⟨e1, e2, -, e4⟩ := absorb_data a
+  have hb := absorb_meta_below a M hm hg id
+  rw [e1, e2]
+  refine ⟨fun hf => ?_, fun hf => ?_, fun hf => ?_⟩
+  · have := hd id hf; omega
+  · have := hb (List.mem_append_left _ hf); omega
+  · have := hb (List.mem_append_right _ hf); omega
+
+/-- C04 after open / a raised limit: every page `Tx.Alloc` hands out comes from the data free list
+    or is fresh — beyond the end marker, in neither free list, not a meta page in use. No growth
+    hypothesis: a successful allocation from the end of the file implies that growth was possible. -/
+theorem absorb_alloc_fresh (a : Alloc) (M : List Nat) (st : TxAlloc) (n : Nat) (a' : Alloc) (st' : TxAlloc) (ids : List Nat)
+    (hm : ∀ x ∈ a.mta.free ++ M, x < a.mta.endMarker) (hd : ∀ x ∈ a.data.free, x < a.data.endMarker)
+    (h : dataAllocRegions a.absorbOverflow st n = some (a', st', ids)) :
+    ∀ x ∈ ids, x ∈ a.data.free ∨
+      (a.absorbOverflow.data.endMarker ≤ x ∧ x ∉ a.data.free ∧ x ∉ a.mta.free ++ M) :=
+  absorb_alloc a M st n a' st' ids hm hd h
+
+/-- the hypotheses are satisfiable and `absorbOverflow` is needed: overflow area `[10, 12)` (page 10
+    in use, page 11 free), limit raised from 10 to 20. Without `absorbOverflow` the allocator hands
+    out the meta pages 10 and 11; with it the pages 12 and 13. -/
+example :
+    let a : Alloc := { maxPages := 20, data := { endMarker := 10, free := [4] }, mta := { endMarker := 12, free := [3, 11] }, metaTotal := 4 }
+    (∀ x ∈ a.mta.free ++ [2, 10], x < a.mta.endMarker) ∧ (∀ x ∈ a.data.free, x < a.data.endMarker) ∧
+    a.absorbOverflow.data.endMarker = 12 ∧
+    (dataAllocRegions a (a.beginTx false 80) 3).map (·.2.2) = some [4, 10, 11] ∧
+    (dataAllocRegions a.absorbOverflow (a.absorbOverflow.beginTx false 80) 3).map (·.2.2) = some [4, 12, 13] := by decide
+
+/-- a file at its limit keeps its overflow area (nothing can be handed out from the end of the file) -/
+example :
+    let a : Alloc := { maxPages := 10, data := { endMarker := 10, free := [4] }, mta := { endMarker := 12, free := [3, 11] }, metaTotal := 4 }
+    a.absorbOverflow = a ∧ (dataAllocRegions a (a.beginTx false 80) 2).isNone = true := by decide
 
 end TxVerif
